@@ -142,7 +142,10 @@ func runC16(r *Run) {
 				ctx, cancel := context.WithTimeout(bg, d)
 				err := c.Ping(ctx)
 				cancel()
-				if err != nil && !(stall && errors.Is(err, context.DeadlineExceeded)) {
+				// (once the transport is closed the pinger stops whatever the error says:
+				// a context that ends at the moment the connection is closed leaves Ping
+				// through either case of its select, which the runtime chooses)
+				if err != nil && (rc.Lib.Closed() || !(stall && errors.Is(err, context.DeadlineExceeded))) {
 					return
 				}
 			}
